@@ -169,8 +169,22 @@ def gen_value(rng, depth=2, allow_bytes=True):
     d = {}
     for _ in range(rng.randrange(0, 4)):
         d[rng.choice(_KEYS)] = gen_value(rng, depth - 1, allow_bytes)
-    if d.get('_placeholder') and 'num' in d:
-        del d['_placeholder']
+    if rng.random() < 0.08:
+        # application data that resembles the protocol's attachment
+        # placeholder without being one: a falsy '_placeholder', or only one
+        # of the two keys.  (A truthy '_placeholder' together with 'num' IS a
+        # placeholder on the wire - see checks/c02.py, known finding.)
+        k = rng.randrange(4)
+        if k == 0:
+            d['_placeholder'] = rng.choice([False, 0, None, ''])
+            d['num'] = rng.choice([0, 1, 7, -1, 'n'])
+        elif k == 1:
+            d['_placeholder'] = rng.choice([True, False, 1])
+            d.pop('num', None)
+        elif k == 2:
+            d['num'] = rng.choice([0, 1, 2])
+        else:
+            d = {'_placeholder': rng.choice([False, 0]), 'num': 0}
     return d
 
 
